@@ -15,4 +15,23 @@ if os.path.exists(conf):
     c = json.load(open(conf))
     meta["confirmation"] = {k: c.get(k) for k in ("applies", "builds", "tests_pass", "tests_tail", "demo_patched_exit", "demo_clean_exit", "confirmed")}
 meta.setdefault("checks", {}).update({k: {"exit": v["exit"], "violation_lines": v["violations"], "kind": ("none" if v["exit"] == 0 else ("no-failing-input-found" if v["violations"] and all("no-failing-input-found" in x for x in v["violations"]) else "failing-input"))} for k, v in res.items()})
+# keep the first replay of every reporting check next to the seed, and feed its (shrunk) input to the corpus
+import re, shutil
+for k, v in res.items():
+    for line in v["violations"][:1]:
+        m = re.search(r"replay=(\S+)", line)
+        if m and os.path.exists(m.group(1)):
+            dst = os.path.join(d, "replay-%s.json" % k)
+            shutil.copy(m.group(1), dst)
+            try:
+                rep = json.load(open(dst))
+                if rep.get("kind", "").startswith("oracle") and rep.get("lines"):
+                    cpath = os.path.join(HERE, "corpus", k + ".txt")
+                    have = open(cpath).read() if os.path.exists(cpath) else ""
+                    entry = ((", ".join(rep["cfgs"]) + " || ") if rep.get("cfgs") else "") + rep["lines"][0]
+                    if entry not in have and len(entry) < 4000:
+                        with open(cpath, "a") as fh:
+                            fh.write("# from seed %s\n%s\n" % (sid, entry))
+            except Exception as e:
+                print("corpus:", e)
 json.dump(meta, open(meta_path, "w"), indent=1)
